@@ -240,4 +240,8 @@ def run(ck):
     _m = lambda n: _il.import_module('props.' + n)
     _c7.import_results(ck, _m("C01"), "4", None, "4")  # the adapter's slot is not aliased by a stale token
     _c7.import_results(ck, _m("C20"), "4", "increment_version", "4")
-
+    # ---- shared clauses demonstrated by seeding round 8 (the property broken by added code) --------------------
+    from props import common as _c8
+    import importlib as _il8
+    _m8 = lambda n: _il8.import_module('props.' + n)
+    _c8.import_results(ck, _m8("C14"), "4", "dispatch_events", "4")  # one-shot readiness past a batch cut-off is lost: the task is never woken
